@@ -76,21 +76,21 @@ where
     }
 }
 
-crate::fs_harness!(c09_release_u32 @ 64 => { release_once::<U32>() });
-crate::fs_harness!(c09_release_tup2 @ 64 => { release_once::<Tup2>() });
-crate::fs_harness!(c09_release_arr @ 64 => { release_once::<ArrU32x1>() });
-crate::fs_harness!(c09_fail_wrong_type @ 64 => { fail_no_leak::<U32, u16>() });
-crate::fs_harness!(c09_fail_wrong_type_zero @ 64 => { fail_no_leak::<Tup2, [u16; 2]>() });
-crate::fs_harness!(c09_fail_truncated @ 64 => { corrupt_no_leak::<U32, 20, 64>() });
-crate::fs_harness!(c09_fail_bad_magic @ 64 => { corrupt_no_leak::<U32, 64, 3>() });
-crate::fs_harness!(c09_fail_bad_tag @ 64 => { corrupt_no_leak::<E2C, 64, 53>() });
+crate::fs_harness!(c09_release_u32 @ 13 => { release_once::<U32>() });
+crate::fs_harness!(c09_release_tup2 @ 13 => { release_once::<Tup2>() });
+crate::fs_harness!(c09_release_arr @ 13 => { release_once::<ArrU32x1>() });
+crate::fs_harness!(c09_fail_wrong_type @ 13 => { fail_no_leak::<U32, u16>() });
+crate::fs_harness!(c09_fail_wrong_type_zero @ 13 => { fail_no_leak::<Tup2, [u16; 2]>() });
+crate::fs_harness!(c09_fail_truncated @ 13 => { corrupt_no_leak::<U32, 20, 64>() });
+crate::fs_harness!(c09_fail_bad_magic @ 13 => { corrupt_no_leak::<U32, 64, 3>() });
+crate::fs_harness!(c09_fail_bad_tag @ 20 => { corrupt_no_leak::<E2C, 64, 53>() });
 
 /// (ii) I/O failure while reading the file (the file ends before the length its
 /// metadata reported): `load_mem` fails, frees the block exactly once.
-crate::fs_harness!(c09_fail_read_io @ 64 => {
+crate::fs_harness!(c09_fail_read_io @ 5 => {
     let (_x, path) = file_of::<U32>();
     #[cfg(kani)]
-    unsafe { FILE_FAIL_READ = true; }
+    unsafe { FILE_FAIL_READ = true; *core::ptr::addr_of_mut!(SPARE_ERROR) = Some(anyhow::Error::msg("prepared")); }
     let r = <u32>::load_mem(&path);
     let failed = r.is_err();
     match r { Ok(c) => { core::mem::forget(c); } Err(e) => { core::mem::forget(e); } }
@@ -100,7 +100,7 @@ crate::fs_harness!(c09_fail_read_io @ 64 => {
         assert!(FREED == 1, "C09: a failed load must release the backing region exactly once (0 = leak, 2 = double free)");
     }
 });
-crate::fs_harness!(c09_fail_read_error @ 64 => {
+crate::fs_harness!(c09_fail_read_error @ 5 => {
     let (_x, path) = file_of::<U32>();
     #[cfg(kani)]
     unsafe { FILE_OVER = 5; }
@@ -115,7 +115,7 @@ crate::fs_harness!(c09_fail_read_error @ 64 => {
 });
 
 /// (iii) probe: a reference copied out through Deref outlives the case.
-crate::fs_harness!(c09_escape_deref @ 64 => {
+crate::fs_harness!(c09_escape_deref @ 13 => {
     let x: [u8; 2] = any();
     let mut s = Sink::<64>::new();
     let n = x.serialize(&mut s).unwrap();
@@ -132,7 +132,7 @@ crate::fs_harness!(c09_escape_deref @ 64 => {
     }
 });
 /// (iii) probe: the same through AsRef.
-crate::fs_harness!(c09_escape_asref @ 64 => {
+crate::fs_harness!(c09_escape_asref @ 13 => {
     let x: (u16, u16) = (any(), any());
     let mut s = Sink::<64>::new();
     let n = x.serialize(&mut s).unwrap();
@@ -147,7 +147,7 @@ crate::fs_harness!(c09_escape_asref @ 64 => {
     }
 });
 /// (iii) accept side: scoped use is fine (borrow ends before the owner is dropped).
-crate::fs_harness!(c09_scoped_use @ 64 => {
+crate::fs_harness!(c09_scoped_use @ 13 => {
     let x: [u8; 2] = any();
     let mut s = Sink::<64>::new();
     let n = x.serialize(&mut s).unwrap();
@@ -178,7 +178,7 @@ pub fn c09_eps_scope() {
 }
 
 /// Reachability twin.
-crate::fs_harness!(c09_twin_reach @ 64 => {
+crate::fs_harness!(c09_twin_reach @ 13 => {
     let (x, path) = file_of::<U32>();
     let r = <u32>::load_mem(&path);
     match r {
